@@ -460,7 +460,10 @@ func C14(c *fw.Ctx) {
 			maxMuLock.Lock()
 			graphs[id] = ig
 			maxMuLock.Unlock()
-			emit(graphJob(id, ig))
+			gj := graphJob(id, ig)
+			// the caller may spell the path of the root file in any way: the files of the project are the same
+			gj.RootSpelling = []string{"", "./root.jst", ".//root.jst", "././root.jst"}[g%4]
+			emit(gj)
 		}
 		// targets that exist but are not regular files: a named pipe, links to a device, to a directory and to a file outside the
 		// project, a dangling link - the build must end (an error at the INCLUDE, or the linked regular file), never wait or read on
@@ -479,7 +482,7 @@ func C14(c *fw.Ctx) {
 				if strings.Contains(pl.before, "\r\n") {
 					eol = "\r\n"
 				}
-				emit(&proto.Job{ID: fmt.Sprintf("position/%d/%d", pi, ti), Root: "root.jst", WantFiles: true, Files: map[string][]byte{
+				emit(&proto.Job{ID: fmt.Sprintf("position/%d/%d", pi, ti), Root: "root.jst", WantFiles: true, RootSpelling: []string{"", "sub/../root.jst", "./root.jst"}[(pi+ti)%3], Files: map[string][]byte{
 					"root.jst": []byte(pl.before + pl.indent + "INCLUDE " + target + eol), "sub/x.jst": []byte("TYPE @x any\n")}})
 			}
 		}
@@ -516,7 +519,9 @@ func C14(c *fw.Ctx) {
 			maxMuLock.Lock()
 			graphs[id] = ig
 			maxMuLock.Unlock()
-			emit(graphJob(id, ig))
+			gj := graphJob(id, ig)
+			gj.RootSpelling = []string{"", "./f0.jst", ".//f0.jst", "", "././f0.jst"}[s%5]
+			emit(gj)
 		}
 	}, func(j *proto.Job, res *proto.Result) {
 		if workerProblem(c, res) {
